@@ -15,12 +15,14 @@ PY
     continue; fi
   git apply $d/patch.diff
   det=""
-  for p in $prop $extra; do /verif/scripts/run_check.sh $p quick >/tmp/recheck.out 2>&1 || det="$det $p"; done
+  rep=""
+  for p in $prop $extra; do /verif/scripts/run_check.sh $p quick >/tmp/recheck.out 2>&1 || { det="$det $p"; [ "$p" = "$prop" ] && rep=$(grep -m1 -E "^ *(violated|undecided) " /tmp/recheck.out | sed -E 's/^ *//; s/ — .*//' | cut -c1-300); }; done
   git checkout -q -- .
   echo "$name: detected by [$det ]"
-  python3 - "$d" "$det" <<'PY'
+  python3 - "$d" "$det" "$rep" <<'PY'
 import json,sys
 p=sys.argv[1]+'/meta.json'; m=json.load(open(p)); now=sys.argv[2].split(); prop=m['property']
+if sys.argv[3]: m['reported_as']=sys.argv[3]
 old=[x for x in m.get('detected_by_checks',[]) if x!=prop and x not in now]
 m['detected_by_own_check']=prop in now
 m['detected_by_checks']=([prop] if prop in now else [])+[x for x in now if x!=prop]+old
